@@ -69,6 +69,16 @@ pub fn judge_value<T: PurlShape>(p: &GenericPurl<T>) -> (Option<String>, Option<
     if let Some(b) = got.bytes().find(|b| !(0x21..=0x7E).contains(b)) {
         return (Some(got.clone()), Some(Fail::new("not-printable-ascii", format!("byte 0x{b:02X} in {got:?}"))));
     }
+    match obs::show_with_flags(p, &got) {
+        Out::Ok(None) => {},
+        Out::Ok(Some((spec, o))) => {
+            return (
+                Some(got.clone()),
+                Some(Fail::tagged("format-flags-applied-to-a-part", spec, format!("format spec {spec} gives {o:?}; the plain text is {got:?} (flags may be ignored, pad the whole text or cut it, not change a part of it)"))),
+            )
+        },
+        o => return (Some(got.clone()), Some(Fail::new("format-panicked", format!("formatting {snap:?} with flags: {}", o.kind())))),
+    }
     let gb = got.as_bytes();
     for (i, b) in gb.iter().enumerate() {
         if *b == b'%' {
